@@ -143,10 +143,7 @@ func init() {
 		// one Message object, decoded into from <b1>, then given the contents of <b2> by hand (the caller replaces the 5GMM /
 		// 5GSM part and the header), then encoded: the octets are those of a fresh Message decoded from <b2>
 		b1, b2 := aHex(a[0]), aHex(a[1])
-		m, m2 := nas.NewMessage(), nas.NewMessage()
-		if err := m.PlainNasDecode(&b1); err != nil {
-			return "err"
-		}
+		m, m2, m3 := nas.NewMessage(), nas.NewMessage(), nas.NewMessage()
 		if err := m2.PlainNasDecode(&b2); err != nil {
 			return "err"
 		}
@@ -155,9 +152,12 @@ func init() {
 			return "err"
 		}
 		want = append([]byte{}, want...)
-		m3 := nas.NewMessage()
 		b3 := append([]byte{}, b2...)
 		if err := m3.PlainNasDecode(&b3); err != nil {
+			return "err"
+		}
+		// the decode into m is the LAST decode before m is given other contents and encoded
+		if err := m.PlainNasDecode(&b1); err != nil {
 			return "err"
 		}
 		m.SecurityHeader, m.GmmMessage, m.GsmMessage = m3.SecurityHeader, m3.GmmMessage, m3.GsmMessage
